@@ -500,7 +500,13 @@ func (aof *AppendableFile) readAt(bs []byte, off int64) (n int, err error) {
 	var boff int
 
 	if off < aof.fileOffset {
-		n, err = aof.f.ReadAt(bs, aof.fileBaseOffset+off)
+		// only the bytes below fileOffset are read from the file, it may hold stale
+		// or preallocated bytes beyond that point while the actual ones are in the write buffer
+		fbs := bs
+		if int64(len(fbs)) > aof.fileOffset-off {
+			fbs = bs[:aof.fileOffset-off]
+		}
+		n, err = aof.f.ReadAt(fbs, aof.fileBaseOffset+off)
 	} else {
 		boff = int(off - aof.fileOffset)
 	}
